@@ -32,7 +32,7 @@ var redirect = map[string]string{
 	"time.After": "After", "time.Sleep": "Sleep", "time.Now": "Now", "time.Since": "Since", "time.Until": "Until",
 	"time.NewTimer": "NewTimer", "time.AfterFunc": "AfterFunc", "time.NewTicker": "NewTicker",
 	"context.WithCancel": "WithCancel", "context.WithTimeout": "WithTimeout", "context.WithDeadline": "WithDeadline",
-	"os/signal.NotifyContext": "NotifyContext", "runtime.NumCPU": "NumCPU", "os.Exit": "Exit",
+	"os/signal.NotifyContext": "NotifyContext", "runtime.NumCPU": "NumCPU", "runtime.GOMAXPROCS": "GOMAXPROCS", "os.Exit": "Exit",
 	"math/rand.Int63": "RandInt63", "math/rand.Intn": "RandIntn", "math/rand.Uint32": "RandUint32",
 	"math/rand.Read": "RandRead", "math/rand.Seed": "RandSeed", "math/rand.Int": "RandInt",
 	"math/rand.Int63n": "RandInt63n", "math/rand.Int31n": "RandInt31n", "math/rand.Uint64": "RandUint64",
